@@ -263,6 +263,8 @@ type h1opts struct {
 	Head     bool         `json:"head"`      // response to a HEAD request
 	Close    bool         `json:"close"`     // Connection: close written
 	OneByte  bool         `json:"one_byte"`  // 1-byte chunks
+	LongExt  int          `json:"long_ext,omitempty"`   // every chunk-size line carries an extension of this many bytes
+	ChunkLen int          `json:"chunk_len,omitempty"`  // with LongExt: data bytes per chunk
 	Declare  bool         `json:"declare"`   // Trailer: header announcing the trailer names
 	Fold     bool         `json:"fold"`      // some values written with obs-fold continuation lines
 	LFOnly   bool         `json:"-"`
@@ -361,10 +363,26 @@ func renderH1(rng *hk.Rand, a *aresp, o *h1opts) (wireBytes []byte, pieces []pie
 			maxPieces = 64
 		}
 		parts := wire.Partition(rng, a.Body, o.OneByte, maxPieces)
+		longExt := ""
+		if o.LongExt > 0 { // e.g. ";chunk-signature=<64 hex>" as signing proxies add: hundreds of chunks, the same long line
+			parts = nil
+			for p := a.Body; len(p) > 0; {
+				n := o.ChunkLen
+				if n > len(p) {
+					n = len(p)
+				}
+				parts, p = append(parts, p[:n]), p[n:]
+			}
+			longExt = ";chunk-signature=" + strings.Repeat("5", o.LongExt-17)
+		}
 		o.NChunks = len(parts)
 		off := 0
 		for _, p := range parts {
-			w.WriteString(hexSize(rng, len(p)) + hk.Pick(rng, extPool) + "\r\n")
+			if longExt != "" {
+				w.WriteString(fmt.Sprintf("%x", len(p)) + longExt + "\r\n")
+			} else {
+				w.WriteString(hexSize(rng, len(p)) + hk.Pick(rng, extPool) + "\r\n")
+			}
 			w.WriteBody(a.Body, off, len(p))
 			off += len(p)
 			w.WriteString("\r\n")
